@@ -104,12 +104,7 @@ impl request_server::Request for RequestServerImpl {
         request: tonic::Request<Payload>,
     ) -> Result<tonic::Response<Payload>, tonic::Status> {
         let start = SystemTime::now();
-        #[cfg(not(rnacos_verif))]
         let remote_addr = request.remote_addr().unwrap();
-        #[cfg(rnacos_verif)]
-        let remote_addr = request
-            .remote_addr()
-            .unwrap_or_else(crate::verif_hook::peer_addr);
         let payload = request.into_inner();
         let mut request_meta = RequestMeta {
             client_ip: remote_addr.ip().to_string(),
